@@ -2,6 +2,7 @@
 //! model descriptor (Coq `ty`), generates boundary-biased values, renders values
 //! as Coq `val` terms and provides the measures the property oracles need.
 use crate::common::*;
+#[cfg(not(feature = "no-opt"))]
 use bitvec::prelude::{BitVec, Lsb0, Msb0};
 use parity_scale_codec::{Compact, Decode, DecodeWithMemTracking, Encode, MaxEncodedLen, OptionBool};
 use std::collections::{BTreeMap, BTreeSet, BinaryHeap, LinkedList, VecDeque};
@@ -689,6 +690,9 @@ impl<T: Uni> Uni for std::ops::RangeInclusive<T> {
 	}
 }
 
+#[cfg(not(feature = "no-opt"))]
+mod optional {
+	use super::*;
 macro_rules! bits_uni {
 	($($t:ty, $b:expr);*) => {$(
 		impl Uni for BitVec<$t, Lsb0> {
@@ -756,6 +760,8 @@ impl Uni for bytes::Bytes {
 	fn min_wire() -> usize {
 		1
 	}
+}
+
 }
 
 // tuples: right-nested pairs ending in TUnit
